@@ -399,6 +399,9 @@ func vrtSSO(pf vrtSSOProfile) {
 		}
 		vrtAssert("C17.one-form-at-most", rp.Forms <= 1 && (rp.Forms == 0 || rp.Kind == "form"))
 	}
+	if vrtProp("C18") {
+		vrtC18Reply(rp, rp.Kind == "form" || rp.Kind == "xml" || rp.Kind == "redirect" && !accepted, d.decoded)
+	}
 }
 
 // vrtC06Assertions: acceptance implies every validity condition, evaluated on the inputs.
